@@ -6,6 +6,23 @@ var realAll = []string{"every package of /repo (scratch copy, mechanically instr
 
 func init() {
 	register(&propCfg{
+		id: "C16", worker: "c16", goCmd: "go", race: true, chunk: 8,
+		instrument: []string{"-maps", "-clock", "-tick"},
+		tiers: map[string]tierCfg{
+			"quick":    {cases: 640, timeout: 10 * time.Minute},
+			"thorough": {cases: 32_000, timeout: 30 * time.Minute},
+		},
+		level: "exploration",
+		rule: "case = one tape: a shared font (a Go font, its simple or CID-keyed CFF conversion, or a generated font with GSUB/GPOS/GDEF) built on the main goroutine; 2..6 tasks each with 2..6 tape-chosen read-only operations (Write, WriteTrueTypePDF / WriteOpenTypeCFFPDF, AsCFF().Write, Subset+Write, Clone, FontBBox(PDF), Widths*/IsFixedPitch, GlyphBBoxes, glyph metrics, MakeGlyphNames, GetFontInfo/PostScriptName, NewLayouter+Layout, NewContext+Apply on the shared lookup lists, ExplainGsub/ExplainGpos). Exactly one task runs at a time; the tape picks the next task at operation boundaries, at every simulated Write call and at tape-chosen function-entry/loop steps (40..440 switches per case). The baton is passed with raw pipe system calls that the race detector does not model, so it still reports unsynchronised conflicting accesses between tasks. Afterwards every result is compared with the same call run alone on an independently built identical font, and the shared font's digest with its value before. 8 cases per process so that package-level lazily-built state is cold regularly. Non-trivial = every case; distinct = distinct (schedule hash, operation plan).",
+		real:  realAll,
+		stubs: []string{"goroutine scheduling (package sched: tape-driven baton over raw pipes, invisible to the race detector)", "io.Writer (simio.Writer, a yield point)", "map iteration order (fixed per case)"},
+		assume: []string{
+			"operations the library documents as modifying (EnsureGlyphNames, InstallCMap) are excluded: the property is about read-only use",
+			"the race detector keeps a bounded access history per memory word; a conflicting access evicted from it is missed",
+			"porcupine is not used: the shared object is immutable, so the sequential specification is 'each call returns its solo result', which is checked directly",
+		},
+	})
+	register(&propCfg{
 		id: "C02", worker: "c02", goCmd: "go",
 		instrument: []string{"-maps", "-clock", "-tick"},
 		tiers: map[string]tierCfg{
